@@ -52,10 +52,17 @@ type Conn struct {
 
 	onData  func(c *Conn, b []byte) // peer handler (driver goroutine)
 	onClose func(c *Conn)           // DUT closed (driver goroutine)
+	onBreak func(c *Conn)           // connection broke (injected fault); driver goroutine
 
 	BytesFromDUT int
 	WritesFromDUT int
 	WritesAfterClose int
+	firstLateWrite   lateWrite
+}
+
+type lateWrite struct {
+	at   time.Duration
+	what string
 }
 
 func (c *Conn) String() string { return c.name }
@@ -104,13 +111,30 @@ func (c *Conn) Write(p []byte) (int, error) {
 		c.mu.Lock()
 		if c.closedDUT {
 			c.WritesAfterClose++
+			if c.WritesAfterClose == 1 {
+				what := fmt.Sprintf("%d bytes", len(p))
+				if len(p) >= 19 {
+					what = fmt.Sprintf("message type %d, %d bytes", p[18], len(p))
+				}
+				c.firstLateWrite = lateWrite{at: c.env.Sim.Now(), what: what}
+			}
 			c.mu.Unlock()
 			return 0, net.ErrClosed
 		}
 		if c.wErrOnce > 0 {
-			c.wErrOnce--
+			// a failing write means the connection is gone (EPIPE / ECONNRESET): everything after it
+			// fails as well and the reader sees the reset
+			c.wErrOnce = 0
+			c.peerReset = true
+			c.peerClosed = true
+			c.rEOF = true
+			c.wakeReadersLocked()
+			br := c.onBreak
 			c.mu.Unlock()
 			c.env.fault("write_error")
+			if br != nil {
+				c.env.Sim.After(0, 52, "", func() { br(c) })
+			}
 			return 0, errInjected
 		}
 		if c.peerReset {
